@@ -12,7 +12,7 @@ from vmc.oracles import aff, picture
 
 WRAPPERS = ["Transform", "Translate", "Scale", "ScaleAroundCenter", "ScaleUniform", "ScaleUniformAroundCenter",
             "Rotate", "RotateAroundCenter", "Skew", "SkewAroundCenter"]
-FILLS = ["solid", "solidA", "fg", "lin", "linrep", "linrefl", "rad", "radrep", "radrefl"]
+FILLS = ["solid", "solidA", "fg", "fgA", "linfg", "lin", "linrep", "linrefl", "rad", "radrep", "radrefl"]
 STRUCTURES = ["two_layers", "single", "nested", "colrglyph", "group", "composite_outline", "colrglyph_outer", "layers_outer", "group_outer"]
 UNSUPPORTED = ["sweep", "composite_multiply", "composite_gradient_backdrop"]
 FG = (0.0, 0.0, 0.0, 1.0)
@@ -48,6 +48,9 @@ def fill(name):
     rad = lambda ext: {"Format": PF.PaintRadialGradient, "ColorLine": {"ColorStop": [(0, 3), (1, 2)], "Extend": ext},
                        "x0": 250, "y0": 300, "r0": 30, "x1": 300, "y1": 350, "r1": 300}
     return {"solid": lambda: solid(0), "solidA": lambda: solid(1, 0.5), "fg": lambda: solid(0xFFFF),
+            "fgA": lambda: solid(0xFFFF, 0.5),
+            "linfg": lambda: dict(lin("pad"), ColorLine={"ColorStop": [{"StopOffset": 0, "PaletteIndex": 0xFFFF, "Alpha": 0.25},
+                                                                       {"StopOffset": 1, "PaletteIndex": 1, "Alpha": 1.0}], "Extend": "pad"}),
             "lin": lambda: lin("pad"), "linrep": lambda: lin("repeat"), "linrefl": lambda: lin("reflect"),
             "rad": lambda: rad("pad"), "radrep": lambda: rad("repeat"), "radrefl": lambda: rad("reflect"),
             "sweep": lambda: {"Format": PF.PaintSweepGradient, "ColorLine": {"ColorStop": [(0, 0), (1, 1)], "Extend": "pad"},
@@ -233,7 +236,7 @@ def execute(case):
         out.append(bad("C13.picture", f"{st['bad']} of {st['valid']} probes differ, worst {st['worst']}/255, e.g. {st['first'][:2]}"))
     if st["valid"] < 100:
         out.append({"status": "inconclusive", "clause": "C13.picture", "fp": "inconclusive"})
-    if version == 1 and case["fill"] == "fg" and "currentColor" not in text:
+    if version == 1 and case["fill"] in ("fg", "fgA", "linfg") and "currentColor" not in text:
         out.append(bad("C13.foreground-is-currentColor", "foreground palette index not written as currentColor"))
     if version == 0 and "currentColor" not in text:
         out.append(bad("C13.foreground-is-currentColor", "COLRv0 layer with index 0xFFFF not written as currentColor"))
